@@ -24,6 +24,13 @@ int verif_snprintf(char *buf, size_t size, const char *fmt);
 #define snprintf(buf, size, ...) verif_snprintf((buf), (size), VERIF_FIRST(__VA_ARGS__, 0))
 #define VERIF_FIRST(a, ...) (a)
 
+/* sprintf (variadic) has exactly one call site in libjwt, jwt_encode():
+ *     sprintf(*out, "%s.%s.%s", head, payload, buf)
+ * it is redirected to a fixed-arity shim with an assumed contract (stubs/encode_env.c). */
+int verif_sprintf3(char *dst, const char *fmt, const char *a, const char *b, const char *c);
+#undef sprintf
+#define sprintf(dst, fmt, a, b, c) verif_sprintf3((dst), (fmt), (a), (b), (c))
+
 /* fprintf/printf are variadic (see snprintf above); their output is not part of
  * any property: calls are dropped (arguments are plain reads in libjwt). */
 #undef fprintf
